@@ -134,7 +134,7 @@ def frac_pair(fr):
 
 def dino_key(c):
     return (f"dino:H={c['H']},W={c['W']},V={c['V']},p={c['p'][0]}/{c['p'][1]},rmin={c['rmin'][0]}/{c['rmin'][1]},"
-            f"rmax={c['rmax'][0]}/{c['rmax'][1]},minp={c['minp']},asp={c['asp']},aslist={int(c['aslist'])},"
+            f"rmax={c['rmax'][0]}/{c['rmax'][1]},minp={c['minp']},asp={c['asp']},aslist={int(c['aslist'])}{'+%d' % (c['XV'] - c['V']) if c.get('XV', c['V']) != c['V'] else ''},"
             f"Bs={'-'.join(map(str, c['Bs']))},seed={c['seed']}")
 
 
@@ -172,8 +172,8 @@ def record_dino(c, want_blocks=False):
         col._mask_block = wrapped
     for ci, B in enumerate(c["Bs"]):
         shape = (1, 2, 2)
-        samples = make_samples(B, shape, c["V"], c["aslist"], ci)
-        exp = digest(expected_batch(make_samples(B, shape, c["V"], c["aslist"], ci)))
+        samples = make_samples(B, shape, c.get("XV", c["V"]), c["aslist"], ci)
+        exp = digest(expected_batch(make_samples(B, shape, c.get("XV", c["V"]), c["aslist"], ci)))
         try:
             batch, ctx = with_deadline(lambda: col(samples))
             m = ctx["mask"]
@@ -423,6 +423,8 @@ def dino_small_grid():
 def finish_dino(c, r, max_b):
     c = dict(c)
     c["aslist"] = True if c["V"] > 1 else r.random() < 0.3
+    # multi-crop batches: x lists more views (local crops) than the num_views global ones that get masks
+    c["XV"] = c["V"] + (r.choice([0, 0, 1, 4]) if c["aslist"] else 0)
     c["Bs"] = [r.randint(1, max_b) for _ in range(r.choice([1, 2, 2, 3]))]
     c["seed"] = r.randrange(1 << 30)
     return c
